@@ -200,3 +200,230 @@ Proof.
   - apply tbl_put_ok; auto. now apply N.ltb_lt.
   - now apply tbl_remove_ok.
 Qed.
+
+(* ------------------------------------------------------------------ tree updates keep the tree well-formed *)
+
+Lemma wf_tree_add : forall t pp k d tb,
+  wf_tree t -> find_node t (pp ++ [k]) = None -> (pp = [] \/ has_node t pp = true) ->
+  wf_tree (add_node t (mkNode (pp ++ [k]) d tb)).
+Proof.
+  intros t pp k d tb [Hnd [Hne Hpre]] Hnone Hpp. unfold add_node. split; [|split].
+  - rewrite map_app. cbn. apply NoDup_app_intro; auto.
+    + repeat constructor. intros [].
+    + intros p Hp [Hq|[]]. subst p. rewrite find_node_none in Hnone.
+      apply in_map_iff in Hp as [n [Hn1 Hn2]]. now apply (Hnone n).
+  - intros n Hn. apply in_app_or in Hn as [Hn|[Hn|[]]]; [now apply Hne|]. subst n. cbn. destruct pp; discriminate.
+  - intros n q r Hn Hp Hq. apply in_app_or in Hn as [Hn|[Hn|[]]].
+    + destruct (Hpre n q r Hn Hp Hq) as [n' [H1 H2]]. exists n'. split; [apply in_or_app; now left|auto].
+    + subst n. cbn in Hp.
+      destruct (path_snoc_cases r) as [Hr|[r' [k' Hr]]].
+      * subst r. rewrite app_nil_r in Hp. exists (mkNode (pp ++ [k]) d tb). split; [apply in_or_app; right; now left|auto].
+      * subst r. rewrite app_assoc in Hp. apply app_inj_tail in Hp as [Hp _].
+        destruct Hpp as [Hpp|Hpp].
+        -- subst pp. destruct q; [congruence|discriminate].
+        -- apply has_node_spec in Hpp as [np [Hnp1 Hnp2]].
+           destruct r' as [|a r''].
+           ++ rewrite app_nil_r in Hp. subst q. exists np. split; [apply in_or_app; now left|auto].
+           ++ destruct (Hpre np q (a :: r'') Hnp1) as [n' [H1 H2]]; [congruence|auto|].
+              exists n'. split; [apply in_or_app; now left|auto].
+Qed.
+
+Lemma map_node_paths : forall f t p, (forall n, n_path (f n) = n_path n) -> map n_path (map_node f t p) = map n_path t.
+Proof.
+  intros f t p Hf. unfold map_node. rewrite map_map. apply map_ext. intros n.
+  destruct (path_eqb (n_path n) p); auto.
+Qed.
+
+Lemma map_node_in : forall f t p n', In n' (map_node f t p) ->
+  exists n, In n t /\ n' = (if path_eqb (n_path n) p then f n else n).
+Proof. intros f t p n' H. unfold map_node in H. apply in_map_iff in H as [n [H1 H2]]. eauto. Qed.
+
+Lemma wf_tree_map_node : forall f t p, (forall n, n_path (f n) = n_path n) -> wf_tree t -> wf_tree (map_node f t p).
+Proof.
+  intros f t p Hf [Hnd [Hne Hpre]]. split; [|split].
+  - now rewrite map_node_paths.
+  - intros n' Hn'. apply map_node_in in Hn' as [n [H1 H2]]. subst n'.
+    destruct (path_eqb (n_path n) p); [rewrite Hf|]; now apply Hne.
+  - intros n' q r Hn' Hp Hq. apply map_node_in in Hn' as [n [H1 H2]].
+    assert (Hpn : n_path n' = n_path n) by (subst n'; destruct (path_eqb (n_path n) p); [apply Hf|reflexivity]).
+    rewrite Hpn in Hp. destruct (Hpre n q r H1 Hp Hq) as [n2 [H3 H4]].
+    exists (if path_eqb (n_path n2) p then f n2 else n2). split.
+    + unfold map_node. apply in_map_iff. exists n2. auto.
+    + destruct (path_eqb (n_path n2) p); [rewrite Hf|]; auto.
+Qed.
+
+Lemma find_node_map_node : forall f t p q, (forall n, n_path (f n) = n_path n) ->
+  find_node (map_node f t p) q = option_map (fun n => if path_eqb (n_path n) p then f n else n) (find_node t q).
+Proof.
+  intros f t p q Hf. induction t as [|x t IH]; cbn; auto.
+  assert (E : n_path (if path_eqb (n_path x) p then f x else x) = n_path x)
+    by (destruct (path_eqb (n_path x) p); [apply Hf|reflexivity]).
+  rewrite E. destruct (path_eqb (n_path x) q); auto.
+Qed.
+
+Lemma has_node_map_node : forall f t p q, (forall n, n_path (f n) = n_path n) -> has_node (map_node f t p) q = has_node t q.
+Proof.
+  intros f t p q Hf. unfold has_node. rewrite find_node_map_node by auto. destruct (find_node t q); reflexivity.
+Qed.
+
+Lemma has_node_add : forall t n q, has_node t q = true -> has_node (add_node t n) q = true.
+Proof.
+  intros t n q H. apply has_node_spec in H as [x [H1 H2]]. apply has_node_spec. exists x.
+  split; [apply in_or_app; now left|auto].
+Qed.
+
+(* ------------------------------------------------------------------ taking a subtree out *)
+
+Definition pmem (p : path) (l : list path) : bool := existsb (path_eqb p) l.
+
+Lemma pmem_spec : forall p l, pmem p l = true <-> In p l.
+Proof.
+  intros p l. unfold pmem. rewrite existsb_exists. split.
+  - intros [q [H1 H2]]. apply path_eqb_eq in H2. now subst.
+  - intros H. exists p. split; auto. apply path_eqb_refl.
+Qed.
+
+Lemma fold_remove_node : forall L t,
+  fold_left remove_node L t = filter (fun n => negb (pmem (n_path n) L)) t.
+Proof.
+  induction L as [|q L IH]; intros t; cbn [fold_left].
+  - cbn. induction t as [|x t IHt]; cbn; auto. now rewrite <- IHt.
+  - rewrite IH. unfold remove_node. induction t as [|x t IHt]; cbn [filter]; auto.
+    unfold pmem at 2. cbn [existsb]. rewrite (path_eqb_sym (n_path x) q).
+    destruct (path_eqb q (n_path x)); cbn [negb orb filter].
+    + apply IHt.
+    + fold (pmem (n_path x) L). destruct (negb (pmem (n_path x) L)); [f_equal|]; apply IHt.
+Qed.
+
+(* everything listed lies at or below p *)
+Lemma removal_order_below : forall fuel t p q, In q (removal_order fuel t p) -> is_prefix p q = true.
+Proof.
+  induction fuel as [|f IH]; intros t p q H; cbn in H.
+  - destruct H as [H|[]]. subst. apply is_prefix_refl.
+  - apply in_app_or in H as [H|[H|[]]]; [|subst; apply is_prefix_refl].
+    apply in_flat_map in H as [c [Hc Hq]]. apply children_in in Hc as [_ [k Hk]].
+    apply IH in Hq. apply is_prefix_spec in Hq as [r Hr]. apply is_prefix_spec. exists (k :: r).
+    rewrite Hr, Hk, <- app_assoc. reflexivity.
+Qed.
+
+(* every node of the tree at or below p is listed, given enough fuel *)
+Lemma removal_order_complete : forall fuel t p r, wf_tree t -> p <> [] ->
+  (exists n, In n t /\ n_path n = p ++ r) -> length r <= fuel -> In (p ++ r) (removal_order fuel t p).
+Proof.
+  induction fuel as [|f IH]; intros t p r Hwf Hp [n [Hn Hpn]] Hl.
+  - destruct r; [|cbn in Hl; lia]. rewrite app_nil_r. now left.
+  - cbn. destruct r as [|k r'].
+    + rewrite app_nil_r. apply in_or_app. right. now left.
+    + apply in_or_app. left. apply in_flat_map.
+      destruct Hwf as [Hnd [Hne Hpre]].
+      destruct (Hpre n (p ++ [k]) r' Hn) as [c [Hc1 Hc2]].
+      { rewrite Hpn, <- app_assoc. reflexivity. }
+      { destruct p; discriminate. }
+      exists c. split; [apply children_in; eauto|].
+      rewrite Hc2. replace (p ++ k :: r') with ((p ++ [k]) ++ r') by (rewrite <- app_assoc; reflexivity).
+      apply IH; [split; auto|destruct p; discriminate| |cbn in Hl; lia].
+      exists n. split; auto. rewrite Hpn, <- app_assoc. reflexivity.
+Qed.
+
+Lemma NoDup_map_in : forall (A B : Type) (f : A -> B) l,
+  (forall x y, In x l -> In y l -> f x = f y -> x = y) -> NoDup l -> NoDup (map f l).
+Proof.
+  induction l as [|a l IH]; intros Hinj Hnd; cbn; [constructor|].
+  inversion Hnd as [|? ? Ha Hnd']; subst. constructor.
+  - intros H. apply in_map_iff in H as [b [H1 H2]]. apply Ha.
+    assert (b = a) by (apply Hinj; auto; [now right|now left]). now subst.
+  - apply IH; auto. intros x y Hx Hy. apply Hinj; now right.
+Qed.
+
+(* a chain of nested nodes is no longer than the tree *)
+Lemma chain_length : forall t p r n, wf_tree t -> p <> [] -> In n t -> n_path n = p ++ r -> length r <= length t.
+Proof.
+  intros t p r n [Hnd [Hne Hpre]] Hp Hn Hpn.
+  set (chain := map (fun j => p ++ firstn j r) (seq 1 (length r))).
+  assert (Hc1 : NoDup chain).
+  { unfold chain. apply NoDup_map_in; [|apply seq_NoDup].
+    intros i j Hi Hj E. apply in_seq in Hi. apply in_seq in Hj. apply app_inv_head in E.
+    apply (f_equal (@length name)) in E. rewrite !firstn_length in E. lia. }
+  assert (Hc2 : incl chain (map n_path t)).
+  { intros q Hq. unfold chain in Hq. apply in_map_iff in Hq as [j [Hj1 Hj2]]. apply in_seq in Hj2.
+    destruct (Hpre n q (skipn j r) Hn) as [n' [H1 H2]].
+    - rewrite Hpn, <- Hj1, <- app_assoc, firstn_skipn. reflexivity.
+    - subst q. destruct p; [congruence|discriminate].
+    - rewrite <- H2. now apply in_map. }
+  pose proof (NoDup_incl_length Hc1 Hc2) as H. unfold chain in H. rewrite !map_length, seq_length in H. exact H.
+Qed.
+
+Lemma removal_order_mem : forall t p n, wf_tree t -> p <> [] -> In n t ->
+  pmem (n_path n) (removal_order (S (length t)) t p) = is_prefix p (n_path n).
+Proof.
+  intros t p n Hwf Hp Hn. destruct (is_prefix p (n_path n)) eqn:E.
+  - apply pmem_spec. apply is_prefix_spec in E as [r Hr]. rewrite Hr.
+    apply removal_order_complete; auto; [eauto|]. pose proof (chain_length t p r n Hwf Hp Hn Hr). lia.
+  - destruct (pmem (n_path n) (removal_order (S (length t)) t p)) eqn:E'; auto.
+    apply pmem_spec in E'. apply removal_order_below in E'. congruence.
+Qed.
+
+Definition prune_tree (t : tree) (p : path) : tree := filter (fun n => negb (is_prefix p (n_path n))) t.
+
+Lemma fold_remove_subtree : forall t p, wf_tree t -> p <> [] ->
+  fold_left remove_node (removal_order (S (length t)) t p) t = prune_tree t p.
+Proof.
+  intros t p Hwf Hp. rewrite fold_remove_node. unfold prune_tree. apply filter_ext_in.
+  intros n Hn. now rewrite removal_order_mem.
+Qed.
+
+Lemma wf_tree_prune : forall t p, wf_tree t -> wf_tree (prune_tree t p).
+Proof.
+  intros t p [Hnd [Hne Hpre]]. unfold prune_tree. split; [|split].
+  - clear Hne Hpre. induction t as [|x t IH]; cbn; [constructor|].
+    cbn in Hnd. inversion Hnd as [|? ? Hx Hnd']; subst.
+    destruct (negb (is_prefix p (n_path x))); auto. cbn. constructor; auto.
+    intros H. apply Hx. apply in_map_iff in H as [y [H1 H2]]. apply filter_In in H2 as [H2 _].
+    rewrite <- H1. now apply in_map.
+  - intros n Hn. apply filter_In in Hn as [Hn _]. now apply Hne.
+  - intros n q r Hn Hpn Hq. apply filter_In in Hn as [Hn Hf].
+    destruct (Hpre n q r Hn Hpn Hq) as [n' [H1 H2]]. exists n'. split; auto.
+    apply filter_In. split; auto. rewrite H2.
+    apply negb_true_iff in Hf. apply negb_true_iff.
+    destruct (is_prefix p q) eqn:E; auto. apply is_prefix_spec in E as [r' Hr'].
+    assert (is_prefix p (n_path n) = true); [|congruence].
+    apply is_prefix_spec. exists (r' ++ r). rewrite Hpn, Hr', <- app_assoc. reflexivity.
+Qed.
+
+(* ------------------------------------------------------------------ mapping over all nodes *)
+
+Lemma find_node_map : forall (g : node -> node) t q, (forall n, n_path (g n) = n_path n) ->
+  find_node (map g t) q = option_map g (find_node t q).
+Proof.
+  intros g t q Hg. induction t as [|x t IH]; cbn; auto.
+  rewrite Hg. destruct (path_eqb (n_path x) q); auto.
+Qed.
+
+Lemma has_node_map : forall (g : node -> node) t q, (forall n, n_path (g n) = n_path n) ->
+  has_node (map g t) q = has_node t q.
+Proof. intros g t q Hg. unfold has_node. rewrite find_node_map by auto. destruct (find_node t q); reflexivity. Qed.
+
+Lemma wf_tree_map : forall (g : node -> node) t, (forall n, n_path (g n) = n_path n) -> wf_tree t -> wf_tree (map g t).
+Proof.
+  intros g t Hg [Hnd [Hne Hpre]]. split; [|split].
+  - rewrite map_map. rewrite (map_ext (fun x => n_path (g x)) n_path Hg). exact Hnd.
+  - intros n' Hn'. apply in_map_iff in Hn' as [n [H1 H2]]. subst n'. rewrite Hg. now apply Hne.
+  - intros n' q r Hn' Hp Hq. apply in_map_iff in Hn' as [n [H1 H2]]. subst n'. rewrite Hg in Hp.
+    destruct (Hpre n q r H2 Hp Hq) as [n2 [H3 H4]]. exists (g n2). split; [now apply in_map|now rewrite Hg].
+Qed.
+
+Lemma remove_node_absent : forall t q, find_node t q = None -> remove_node t q = t.
+Proof.
+  intros t q H. rewrite find_node_none in H. unfold remove_node. induction t as [|x t IH]; cbn; auto.
+  assert (E : path_eqb (n_path x) q = false) by (apply path_eqb_neq; apply H; now left).
+  rewrite E. cbn. f_equal. apply IH. intros n Hn. apply H. now right.
+Qed.
+
+Lemma has_node_prune : forall t p q, has_node t q = true -> is_prefix p q = false -> has_node (prune_tree t p) q = true.
+Proof.
+  intros t p q H Hp. apply has_node_spec in H as [n [H1 H2]]. apply has_node_spec. exists n. split; auto.
+  unfold prune_tree. apply filter_In. split; auto. now rewrite H2, Hp.
+Qed.
+
+Lemma in_prune : forall t p n, In n (prune_tree t p) -> In n t /\ is_prefix p (n_path n) = false.
+Proof. intros t p n H. unfold prune_tree in H. apply filter_In in H as [H1 H2]. split; auto. now apply negb_true_iff. Qed.
